@@ -249,6 +249,11 @@ pub enum VOp {
     ValidateClaim(ValidatorSpec),
     SetFooter(String),
     SetAssertion(String),
+    /// set the footer / assertion to the first `n` bytes of the string last set with SetFooter /
+    /// SetAssertion on this live object, passing a slice of the very same buffer (same pointer, other
+    /// length; successive uses shrink and grow the slice over one backing buffer)
+    SetFooterPrefixOfCurrent(usize),
+    SetAssertionPrefixOfCurrent(usize),
 }
 
 #[derive(Serialize, Deserialize, Clone, Debug, PartialEq)]
@@ -414,6 +419,9 @@ pub enum Op {
     },
     /// an authentic token issued by the *other* feature-set binary (outbox exchange, DESIGN §4):
     /// its provenance is known to the model although this binary cannot issue it
+    /// observe arm of C10: `n` direct draws from the library's random-key constructor (the one every local
+    /// builder takes its nonce material from), real OS entropy passing through the hook unmodified
+    DrawKeys { n: u32 },
     Imported {
         out: u32,
         text: String,
@@ -567,6 +575,9 @@ pub enum Obs {
     Literal,
     NewVerifier { ok: bool, notes: Vec<String> },
     Deliver { main: DeliverObs, twin: Option<DeliverObs>, control: Option<DeliverObs> },
+    Draws { ok: u32, failed: u32, distinct: u32, constant_positions: u32, worst_bit_dev_centisigma: u32 },
     Reconfigure { applied: bool },
+    /// a prefix-of-current reconfiguration, resolved to the plain operation it amounted to
+    ReconfigureResolved { applied: bool, as_op: VOp },
     KeyParse { outcome: Outcome },
 }
